@@ -86,35 +86,6 @@ func H06a_splitter() {
 
 var _ = message.QosAtMostOnce
 
-// vrtLevelName: a level-structured name of 1..V levels. Each level is a token:
-// one literal byte (symbolic, not one of "/+#$"), or - in filters - "+" or "#"
-// ("#" may be generated in a non-final position: an invalid filter).
-// Empty levels are excluded here (known finding, covered by H06a/H06b).
-func vrtLevelName(name string, V int, filter bool) []byte {
-	k := vrtChoice(name+".levels", V) + 1
-	var out []byte
-	for i := 0; i < k; i++ {
-		if i > 0 {
-			out = append(out, '/')
-		}
-		tok := 0
-		if filter {
-			tok = vrtChoice(name+".tok", 3)
-		}
-		switch tok {
-		case 0:
-			c := vrtByte(name + ".lit")
-			vrtAssume(vrtAnd(vrtAnd(c != '/', c != '+'), vrtAnd(c != '#', c != '$')))
-			out = append(out, c)
-		case 1:
-			out = append(out, '+')
-		case 2:
-			out = append(out, '#')
-		}
-	}
-	return out
-}
-
 // H06c: histories of subscribe / re-subscribe / unsubscribe by two subscribers
 // over two filters, then one lookup.
 func H06c_history() {
